@@ -323,7 +323,7 @@ func runExh(e *ev.Env, c *ev.Case) {
 		return
 	}
 	sc := scs[idx]
-	max := e.N(800, 6000)
+	max := e.N(800, 1500)
 	n, exhausted, bad := explore(e, c, sc, max, true)
 	e.Stat("exh-scenarios", 1)
 	if exhausted {
